@@ -91,10 +91,11 @@ CLAIMED = {
          'Lean 4 loop-invariant proofs with oracle updates + postcondition-transfer correspondence + on-arm falsifier',
          'DESIGN.md section 5 C07'),
  'C06': ('Partial proof: machine-checked theorems (Lean 4) for the algebraic clauses - column i of the space Jacobian model is Ad(prod_{k<i} exp([S_k]theta_k)) S_i for chains of any length, torque.rate = wrench.twist for every Jacobian, '
-         'linearity of the transpose map in the wrench (link-mass term), with exp6 conjugation / chain base change from C05. The derivative clause J = d(FK)/d(theta), the body = Ad(inv T) space relation, the link / tool-aligned / numerical variants and the pseudo-inverse round trip '
-         'are decided on the real Arm by Richardson-extrapolated central differences and NumPy references (labelled sampled); model Jacobians are compared with the Arm\'s on its stored screws.',
-         'Trusted: Lean kernel, Mathlib, harness finite differences (steps >= 1e-4) and frame references; no theorem about differentiation is claimed.',
-         'Lean 4 proofs of the algebraic clauses + differential correspondence + finite-difference falsifier on the real Arm',
+         'linearity of the transpose map in the wrench (link-mass term), with exp6 conjugation / chain base change from C05; and the derivative clause for the space Jacobian: d/dtheta of the library\'s own exponential is [S] times it outside the 1e-6 cut-off band '
+         '(entrywise HasDerivAt of the Rodrigues closed forms), hence d/dtheta_i FK(theta) = [J_space(theta) e_i] FK(theta) for chains of any length (product rule through conj_hat6). Inside the band, and for the body = Ad(inv T) space relation, the link / tool-aligned / numerical variants and the pseudo-inverse round trip, '
+         'the property is decided on the real Arm by Richardson-extrapolated central differences and NumPy references (labelled sampled); model Jacobians are compared with the Arm\'s on its stored screws.',
+         'Trusted: Lean kernel, Mathlib (calculus of sin/cos), harness finite differences (steps >= 1e-4) and frame references.',
+         'Lean 4 proofs (algebraic clauses; entrywise HasDerivAt for the derivative clause) + differential correspondence + finite-difference falsifier on the real Arm',
          'DESIGN.md section 5 C06'),
  'C13': ('Machine-checked theorem (Lean 4, reals): for every chain of moving and fixed joints (any length, fixed joints before, between and after) with rigid origin transforms, the product-of-exponentials FK of the screws and home pose the loader builds '
          '(axes rotated into space, screws (w, q x w), fixed joints folded in) equals the file\'s own semantics prod(origin_k * Rot(axis_k, theta_k)) - by induction over the chain using exp6([Ad_Q (w,0)] theta) = Q Rot(w,theta) inv(Q); '
